@@ -34,6 +34,7 @@ def oracle_pass(chk, scripts, traces, props, pristine=False):
         ret = fsoracle.Retired()
         rq = fsoracle.Requests()
         tainted = False
+        reinstated = False
         for rec in recs:
             ev = sc['events'][rec['seq']] if rec['seq'] >= 0 else {}
             if ev.get('op') == 'Reconfigure' and rec['reply']['class'] == 'ok' and ev['config'] != '__CURRENT__':
@@ -48,6 +49,12 @@ def oracle_pass(chk, scripts, traces, props, pristine=False):
                 tainted = False
             if tainted:
                 fs = [dict(f, sig='after-failed-revert') if f['clause'] in TOLD_CLAUSES else f for f in fs]
+            # K2 survives only where grants are REINSTATED (configuration update, restart): before the first such
+            # request of a history a starved descendant pool can only come from an allocation, which now refuses it
+            if ev.get('op') in ('Reconfigure', 'Restart'):
+                reinstated = True
+            if not reinstated:
+                fs = [dict(f, sig=f['sig'] + ':by-allocation') if f['sig'] == 'descendant-of-slicing-grant' else f for f in fs]
             prevg = {g['id']: g for g in ((rec.get('ta') or {}).get('grants') or [])}
             fs += ret.step(ev, rec)
             if rec['seq'] >= 0:
